@@ -89,6 +89,8 @@ def run_seqs(args):
         except sim.WatchdogExpired:
             ev.append(dict(k="probe_tx", result=False))
         s.deadline = None
+        if not lite and not any(e["k"] == "probe_tx" for e in ev):
+            ev.append(rfapi.reenter(nrf, chip))     # cached view = radio (C03.ShadowCoherent) after every history
         out.append(dict(lite=lite, ev=ev))
     return out
 
